@@ -95,12 +95,21 @@ def q2_dequeue_sites(ctx, rep):
             okk = t[0] == "field" and t[1] == ("param", 1)
             rep.check(okk, R, "consumer-op:%s:%s" % (fn, s.ck.split("::")[-1]), s.where, "dequeue on the wrapper's own receiver", "dequeue on %s" % term_str(t))
             n_cons += 1
-        elif s.body.path == A.send_wrapper.path:
+        elif (s.body.j.get("impl_adt") or "") == A.sender_adt["path"]:
             rep.check(s.ck in CB_TRYRECV, R, "head-pop:%s:%s" % (fn, s.ck.split("::")[-1]), s.where,
                       "sender-side dequeue is the non-blocking head pop", "sender-side dequeue %s may block or drain" % s.ck)
             n_pop += 1
         else:
             rep.bad(R, "foreign-dequeue:%s:%s" % (fn, s.ck.split("::")[-1]), s.where, "queue items are removed outside the consumer wrapper / drop-oldest arm")
+    # what is called on the content of the dispatch sender slot: only the analysed send wrapper
+    for s in ctx.prog.sites():
+        cb = ctx.prog.callee_body(s)
+        if cb is None or (cb.j.get("impl_adt") or "") != A.sender_adt["path"] or not s.term["args"]:
+            continue
+        t = ctx.prog.bp(s.body).arg_term(s.bb, 0)
+        if any(st[0] == "field" and st[2] == A.f_tx for st in subterms(t)):
+            rep.check(cb.path == A.send_wrapper.path or cb.j.get("impl_trait") is not None, R, "dispatch-sender-used-through-analysed-wrapper:%s" % short(s.body.path), s.where,
+                      "the dispatch sender is used through %s" % short(A.send_wrapper.path), "%s is called on the dispatch sender: an enqueue/dequeue path that the channel rules do not cover" % short(cb.path))
     rep.floor(R, "consumer dequeue sites", n_cons, 1)
     rep.floor(R, "drop-oldest head pops", n_pop, 1)
     # callers of the blocking receive wrapper on the dispatch receiver: only the reducer closure
